@@ -1,2 +1,106 @@
-/- C12 driver (stub until the model exists) -/
-def main : IO Unit := pure ()
+/- C12 driver: op lines in, observable lines out (same format as props/C12/harness.cpp). -/
+import TboxModel.Util
+import TboxModel.C12.Pipeline
+open Tbox.Util Tbox.C12
+
+def cfg : Cfg := Cfg.fixed
+
+def showKVs (m : List (Bytes × Bytes)) : String :=
+  if m.isEmpty then "-" else ",".intercalate (m.map fun (k, v) => hexOfBytes k ++ ":" ++ hexOfBytes v)
+
+def showReq (r : Req) : String :=
+  "m=" ++ methodStr r.method ++ " path=" ++ hexOfBytes r.url.path ++ " params=" ++ showKVs r.url.params ++
+  " query=" ++ showKVs r.url.query ++ " frag=" ++ hexOfBytes r.url.frag ++ " ver=" ++ verStr r.ver ++
+  " hdr=" ++ showKVs r.headers ++ " body=" ++ hexOfBytes r.body
+
+def showSt : St → String
+  | .init => "init" | .startLine => "startline" | .heads => "heads" | .all => "all" | .fail => "fail"
+
+inductive Mode
+  | fresh
+  | parser (c : Conn)
+  | server (s : Server)
+
+def evTags (evs : List Ev) : List String :=
+  evs.map fun e => match e with
+    | .parsed _ st => "parse-" ++ showSt st
+    | .req _ last d => (if d then "req-declared" else "req-undeclared") ++ (if last then " req-last" else "")
+
+/-- parser-level `feed` -/
+def doFeed (c : Conn) (seg : Bytes) : Conn × List String :=
+  if c.dead then (c, ["B dead", "P dead"]) else
+  let o := recv cfg (fun _ => false) c seg
+  let plines := o.evs.filterMap fun e => match e with
+    | .req r _ _ => some ("P req " ++ showReq r)
+    | _ => none
+  let calls := o.evs.filterMap fun e => match e with
+    | .parsed n st => some (toString n ++ ":" ++ showSt st)
+    | _ => none
+  let tail := match o.status with
+    | .threw => ["P exception"]
+    | .hang => ["P hang"]
+    | .ok => (if o.conn.dead then ["P fail"] else []) ++
+             ["M calls=" ++ (if calls.isEmpty then "-" else ",".intercalate calls) ++ " end=" ++ showSt o.conn.ps.st ++
+              " pending=" ++ toString o.conn.buf.length]
+  (o.conn, ["B " ++ " ".intercalate (evTags o.evs ++ (if seg.isEmpty then ["empty-seg"] else []))] ++ plines ++ tail)
+
+def pipeTags (before after : Pipe) : List String :=
+  let w := after.written.length - before.written.length
+  (if w = 1 then ["wrote-1"] else if w > 1 then ["wrote-flush"] else []) ++
+  (if after.resBuff.length > before.resBuff.length then ["parked"] else []) ++
+  (if before.valid && !after.valid then ["disconnected"] else []) ++
+  (if !before.valid then ["on-invalid"] else []) ++
+  (if after.closeIndex.isSome && before.closeIndex.isNone then ["close-marked"] else []) ++
+  (if after.pastClose && w > 0 then ["wrote-closing"] else [])
+
+def showOut (before after : Pipe) : List String :=
+  let newly := (after.written.drop before.written.length).map (·.2)
+  ["P out " ++ hexOfBytes newly.flatten] ++ (if before.valid && !after.valid then ["P eof"] else [])
+
+def reqLines (startIdx : Nat) (evs : List Ev) : List String :=
+  let rs := reqsOf evs
+  (rs.zipIdx).map fun ((r, _, _), k) => "P req " ++ toString (startIdx + k) ++ " " ++ showReq r
+
+def doSeg (s : Server) (seg : Bytes) : Server × List String :=
+  let (s', o) := s.seg cfg seg
+  let st := match o.status with | .threw => ["P exception"] | .hang => ["P hang"] | .ok => []
+  (s', ["B " ++ " ".intercalate (evTags o.evs ++ pipeTags s.pipe s'.pipe ++
+          (if s.conn.closed && s.pipe.valid then ["seg-after-close"] else []))] ++
+       reqLines s.pipe.reqIndex o.evs ++ st ++ showOut s.pipe s'.pipe)
+
+def stepLine (m : Mode) (line : String) : Mode × List String :=
+  let ws := words line
+  match ws with
+  | [] => (m, [])
+  | "case" :: _ => (.fresh, [line.trimAscii.toString])
+  | ["feed", h] =>
+    match bytesOfHex h, m with
+    | some b, .fresh => let (c, ls) := doFeed {} b; (.parser c, ls)
+    | some b, .parser c => let (c', ls) := doFeed c b; (.parser c', ls)
+    | _, _ => (m, ["bad-op"])
+  | ["srv"] =>
+    match m with
+    | .fresh => (.server {}, ["P srv"])
+    | _ => (m, ["bad-op"])
+  | ["sync", i, h] =>
+    match i.toNat?, bytesOfHex h, m with
+    | some i, some b, .server s =>
+      if (s.syncs.lookup i).isSome then (m, ["bad-op"])
+      else (.server { s with syncs := (i, b) :: s.syncs }, ["P sync"])
+    | _, _, _ => (m, ["bad-op"])
+  | ["seg", h] =>
+    match bytesOfHex h, m with
+    | some b, .server s =>
+      if b.isEmpty then (m, ["bad-op"]) else
+      let (s', ls) := doSeg s b; (.server s', ls)
+    | _, _ => (m, ["bad-op"])
+  | ["done", i, h] =>
+    match i.toNat?, bytesOfHex h, m with
+    | some i, some b, .server s =>
+      match s.done i b with
+      | none => (m, ["bad-op"])
+      | some s' => (.server s', ["B done " ++ " ".intercalate (pipeTags s.pipe s'.pipe)] ++ showOut s.pipe s'.pipe)
+    | _, _, _ => (m, ["bad-op"])
+  | _ => (m, ["bad-op"])
+
+def main : IO Unit := runDriver Mode.fresh stepLine
